@@ -70,10 +70,10 @@ func init() {
 		hw.Opts{Groups: groups("c10", "c01"), MinSteps: 4, MaxSteps: 60, SmallPrune: true, LargeEvery: 60,
 			WMint: 60, WDeliver: 20, WClean: 14, WSave: 2, WReload: 3})
 
-	hprop("C11", histRule+"at tape-chosen points the repository is saved and a new one loaded from the same disk (up to several generations); tip, best chain by height and height/best-chain flag of every header within the retained depth must be equal; then original and loaded repository (twin run) receive the same continuation and must give the same verdicts and observables; non-trivial = every run with at least one reload",
+	hprop("C11", histRule+"headers are also marked invalid and unmarked at tape-chosen points (a saved branch can shrink between two saves); at tape-chosen points the repository is saved and a new one loaded from the same disk (up to several generations); tip, best chain by height and height/best-chain flag of every header within the retained depth must be equal; then original and loaded repository (twin run) receive the same continuation and must give the same verdicts and observables; non-trivial = every run with at least one reload",
 		25, 900, []string{"twin-started", "twin-submission", "reload-with-side-branches"}, nil, "exploration",
 		hw.Opts{Groups: groups("c11", "c01"), MinSteps: 4, MaxSteps: 60, SmallPrune: true, LargeEvery: 60, Twin: true,
-			WMint: 60, WDeliver: 20, WClean: 5, WSave: 3, WReload: 12})
+			WMint: 60, WDeliver: 20, WClean: 5, WSave: 3, WReload: 12, WMark: 4, WUnmark: 1})
 
 	hprop("C12", histRule+"for each sampled Clean and Save EVERY prefix of the Write/Remove calls it issued (including empty and full) is turned into a disk image that a fresh repository loads; the load must succeed without panic and report a linked chain of accepted headers with work >= the tip at the last completed Save, and the loaded repository must accept an extension; non-trivial = every run with at least one crash enumeration; crash points are counted under faults_fired",
 		25, 900, []string{"crash-op-with>=4-mutations", "crash-with-side-branches"}, []string{"crash-point"}, "fault_enumeration",
